@@ -6,6 +6,8 @@ PAT="${1:-}"
 for d in seeded/*/; do
   id=$(basename "$d")
   [ -n "$PAT" ] && [[ "$id" != *$PAT* ]] && continue
+  # SKIP_DONE=<log>: leave out the changes that already have a line in that log (resume an interrupted regression)
+  [ -n "${SKIP_DONE:-}" ] && grep -q "^$id :: " "$SKIP_DONE" 2>/dev/null && continue
   prop=$(python3 -c "import json;print(json.load(open('$d/meta.json'))['property'])")
   out=$(VMON_WATCHDOG_S=1500 ./tools/try_mutant.sh "$d/patch.diff" $prop 2>&1 | grep -E "DETECTED|MISSED|INCONCL|refusing|does not apply" | head -1 | cut -c1-160)
   echo "$id :: $out"
